@@ -12,6 +12,7 @@ import (
 
 // Unit is one verification unit: a function, a case of a switch inside a function, or a closure.
 type Unit struct {
+	pendingRhs *Term // results of a call executed in place, to be assigned by the enclosing assignment
 	inHandler bool
 	handlerLit *ast.FuncLit // the recover handler of the unit, if any
 	caught     []*PanicExit  // panics raised on protected paths (handled)
@@ -345,9 +346,30 @@ func (u *Unit) exec(s ast.Stmt, st *State, f Flow) {
 	case *ast.EmptyStmt:
 		f.next(st)
 	case *ast.ExprStmt:
+		if call, ok := n.X.(*ast.CallExpr); ok && u.inlineStmtCall(call, st, func(s *State, res []Term) { f.next(s) }) {
+			return
+		}
 		e.ev(n.X)
 		f.next(st)
 	case *ast.AssignStmt:
+		if len(n.Rhs) == 1 && (n.Tok == token.DEFINE || n.Tok == token.ASSIGN) {
+			if call, ok := n.Rhs[0].(*ast.CallExpr); ok {
+				if u.inlineStmtCall(call, st, func(s *State, res []Term) {
+					ee := u.newEv(s)
+					var rhs Term
+					if len(res) == 1 {
+						rhs = res[0]
+					} else {
+						rhs = Term{Sort: "tuple", Tuple: res}
+					}
+					u.pendingRhs = &rhs
+					u.assign(ee, n)
+					f.next(s)
+				}) {
+					return
+				}
+			}
+		}
 		u.assign(e, n)
 		f.next(st)
 	case *ast.IncDecStmt:
@@ -545,7 +567,15 @@ func (u *Unit) assign(e *Ev, n *ast.AssignStmt) {
 		targets = append(targets, target{loc: e.lvalue(l)})
 	}
 	var vals []Term
-	if len(n.Rhs) == 1 && len(n.Lhs) > 1 {
+	if u.pendingRhs != nil {
+		// the right-hand side was a call executed in place: its results
+		if u.pendingRhs.Sort == "tuple" {
+			vals = u.pendingRhs.Tuple
+		} else {
+			vals = []Term{*u.pendingRhs}
+		}
+		u.pendingRhs = nil
+	} else if len(n.Rhs) == 1 && len(n.Lhs) > 1 {
 		vals = u.multiValue(e, n.Rhs[0], len(n.Lhs))
 	} else {
 		for _, r := range n.Rhs {
@@ -1792,4 +1822,96 @@ func (e *Ev) elemRefFact(term string, t types.Type, outer string, pred func(c st
 		binders = outer + " " + binders
 	}
 	return fmt.Sprintf("(forall (%s) (! %s :pattern (%s)))", binders, pred(comp(el)), el)
+}
+
+// inlineStmtCall: a call in statement position (f(...) or x, y := f(...)) to a function of the
+// package that has NO contract is executed in place: its body is run with the arguments bound and
+// the caller continues from each of its return points. This keeps a contract applicable when a
+// few lines are extracted into a helper (or a helper without contract is called). Loops inside
+// the helper would need invariants of their own and are an error of the unit.
+func (u *Unit) inlineStmtCall(call *ast.CallExpr, st *State, cont func(*State, []Term)) bool {
+	g := u.g
+	var fn *types.Func
+	var recvExpr ast.Expr
+	switch fx := call.Fun.(type) {
+	case *ast.Ident:
+		fn, _ = g.P.Info.Uses[fx].(*types.Func)
+	case *ast.SelectorExpr:
+		if sel := g.P.Info.Selections[fx]; sel != nil && sel.Kind() == types.MethodVal {
+			fn, _ = sel.Obj().(*types.Func)
+			recvExpr = fx.X
+		}
+	}
+	if fn == nil || fn.Pkg() != g.P.Pkg.Types {
+		return false
+	}
+	key := funcKeyOf(fn)
+	if g.C.forFunc(key) != nil {
+		return false
+	}
+	fd := g.P.Funcs[key]
+	if fd == nil || fd.Body == nil || u.inlineDepth > 4 {
+		return false
+	}
+	sig := fn.Type().(*types.Signature)
+	if sig.Variadic() || call.Ellipsis.IsValid() {
+		return false
+	}
+	if _, isIface := func() (types.Type, bool) {
+		if sig.Recv() == nil {
+			return nil, false
+		}
+		t := sig.Recv().Type()
+		_, ok := t.Underlying().(*types.Interface)
+		return t, ok
+	}(); isIface {
+		return false
+	}
+	e := u.newEv(st)
+	if recvExpr != nil && sig.Recv() != nil {
+		rv := e.ev(recvExpr)
+		_, wantPtr := sig.Recv().Type().Underlying().(*types.Pointer)
+		_, havePtr := rv.T.Underlying().(*types.Pointer)
+		if wantPtr != havePtr {
+			return false // address-of / dereference adjustment: leave it to the ordinary call path
+		}
+		st.vars[sig.Recv()] = rv
+	}
+	if len(call.Args) != sig.Params().Len() {
+		return false
+	}
+	for i, a := range call.Args {
+		st.vars[sig.Params().At(i)] = e.toType(e.ev(a), sig.Params().At(i).Type(), call)
+	}
+	g.Notes = append(g.Notes, fmt.Sprintf("%s: call of %s (no contract) executed in place", u.name, key))
+	saveSig, saveRes := u.sig, u.resVars
+	u.sig = sig
+	u.resVars = nil
+	for i := 0; i < sig.Results().Len(); i++ {
+		rv := sig.Results().At(i)
+		if rv.Name() != "" && rv.Name() != "_" {
+			st.vars[rv] = g.zero(rv.Type(), u.bv)
+			u.resVars = append(u.resVars, rv)
+		}
+	}
+	calleeRes := u.resVars
+	u.inlineDepth++
+	restore := func() { u.sig, u.resVars = saveSig, saveRes; u.inlineDepth-- }
+	reenter := func() { u.sig, u.resVars = sig, calleeRes; u.inlineDepth++ }
+	flow := Flow{}
+	flow.ret = func(s *State, r []Term) {
+		restore()
+		cont(s, r)
+		reenter()
+	}
+	flow.next = func(s *State) {
+		var r []Term
+		for _, rv := range calleeRes {
+			r = append(r, s.vars[rv])
+		}
+		flow.ret(s, r)
+	}
+	u.execList(fd.Body.List, st, flow)
+	restore()
+	return true
 }
